@@ -66,7 +66,8 @@ def read_tree(root):
 
 def api_kwargs(cfg):
     return dict(salt=cfg.salt, sensitive_words=cfg.words, as_numbers=cfg.asn, reserved_words=cfg.reserved,
-                preserve_prefixes=cfg.prefixes, preserve_networks=cfg.nets, preserve_suffix_v4=cfg.b4, preserve_suffix_v6=cfg.b6)
+                preserve_prefixes=cfg.prefixes, preserve_networks=cfg.nets, preserve_suffix_v4=cfg.b4, preserve_suffix_v6=cfg.b6,
+                undo_ip_anon=cfg.undo)
 
 
 def run_dir_api(cfg, ind, outd):
@@ -82,6 +83,8 @@ def cli_argv(cfg, ind, outd):
         a.append("-p")
     if cfg.ip:
         a.append("-a")
+    if cfg.undo:
+        a.append("-u")
     if cfg.words:
         a += ["-w", ",".join(cfg.words)]
     if cfg.asn:
@@ -112,14 +115,14 @@ def files_scope(res, pid, rng, tier):
         files, empty_dirs = gen_tree(rng, cfg, 8 if tier == "thorough" else 6)
         d = tempfile.mkdtemp(prefix="ncverif_")
         try:
-            ind = os.path.join(d, ["in dir", "configs [2024]", "in[a]", "in dir"][r % 4])
+            ind = os.path.join(d, ["cfg_raw", "configs [2024]", "in[a]", "in dir"][r % 4])
             if r % 2 == 0 and not any(k.startswith("site[1]") for k in files):
                 files[os.path.join("site[1]", "r1.cfg")] = "".join(mixed_text(rng, cfg, 3)).encode("utf-8")
             write_tree(ind, files, empty_dirs)
             before = read_tree(ind)
             want = sorted(p for p in files if not os.path.basename(p).startswith("."))
             # ---- directory API
-            outd = os.path.join(d, "out")
+            outd = os.path.join(d, "cfg" if r % 4 == 0 else "out")      # (round 0: the output name is a prefix of the input name)
             os.makedirs(os.path.join(outd, "pre-existing"))
             open(os.path.join(outd, "pre-existing", "keep.txt"), "w").write("untouched\n")
             run_dir_api(cfg, ind, outd)
@@ -283,6 +286,26 @@ def files_scope(res, pid, rng, tier):
                               "without": gotc[k][:300].decode("utf-8", "replace"), "failing_files": ["0bad-late.cfg", "bad-early.cfg", occupied]})
         finally:
             shutil.rmtree(d, ignore_errors=True)
+    # undo as the only feature: the command line writes what the directory API writes
+    d = tempfile.mkdtemp(prefix="ncverif_")
+    try:
+        ucfg = fa.FaCfg(salt="undoOnly", undo=True, b4=8, b6=8)
+        ufiles = {"a.cfg": b"ip address 11.22.33.44 255.255.255.0\n neighbor 2001:db8::1 remote-as 65001\n", os.path.join("sub", "b.cfg"): b"ntp server 20.1.2.3\n"}
+        write_tree(os.path.join(d, "in"), ufiles)
+        run_dir_api(ucfg, os.path.join(d, "in"), os.path.join(d, "o1"))
+        import contextlib
+        try:
+            with fa.LogCap(), contextlib.redirect_stderr(io.StringIO()):
+                nc.main(cli_argv(ucfg, os.path.join(d, "in"), os.path.join(d, "o2")))
+        except BaseException:  # noqa
+            pass
+        res.evaluations += 2
+        a_, b_ = read_tree(os.path.join(d, "o1")), (read_tree(os.path.join(d, "o2")) if os.path.isdir(os.path.join(d, "o2")) else {})
+        if a_ != b_ or sorted(a_) != sorted(ufiles):
+            fails.append({"kind": "undo as the only feature: command line and directory API do not write the same files", "argv": cli_argv(ucfg, "<in>", "<out>"),
+                          "directory_api_files": sorted(a_), "command_line_files": sorted(b_)})
+    finally:
+        shutil.rmtree(d, ignore_errors=True)
     d2 = sess.finish(post=fa.model_out_text)
     res.traces += rounds
     return dis + d2, fails
